@@ -22,6 +22,7 @@ Leaves == {Reg(n) : n \in Regs} \cup Consts
 RECURSIVE HasMinus(_)
 HasMinus(x) == CASE x.t = "bin" -> x.op \in {"-", "/"} \/ HasMinus(x.l) \/ HasMinus(x.r) [] x.t \in {"brk", "neg"} -> HasMinus(x.a) [] OTHER -> FALSE
 OKBin(op, l, r) == /\ (op \in {"-", "/"} => ERegs(l) \cap ERegs(r) = {})
+                   /\ (op = "-" => ERegs(l) \cup ERegs(r) # {})        \* a register-free difference may be zero and cancel a whole product
                    /\ ((op = "+" /\ (HasMinus(l) \/ HasMinus(r))) => ERegs(l) \cap ERegs(r) = {})
                    /\ (op = "/" => r.t # "int" /\ (ERegs(r) # {} \/ r \in Consts))
                    /\ (op = "**" => r = I(2) /\ ERegs(l) # {})
@@ -41,14 +42,21 @@ Script(e, pos) == [name |-> "rr", version |-> "1.0", target |-> NoM, type |-> No
                    body |-> Pre \o <<[t |-> "stmt", op |-> "MeasureX", hasargs |-> FALSE, args |-> <<>>, kw |-> <<>>, modes |-> <<I(0)>>, br |-> "none"],
                                     IF pos = "pos" THEN [t |-> "stmt", op |-> "Zgate", hasargs |-> TRUE, args |-> <<e, Fl(1, 4)>>, kw |-> <<>>, modes |-> <<I(1)>>, br |-> "none"]
                                     ELSE [t |-> "stmt", op |-> "Zgate", hasargs |-> TRUE, args |-> <<Fl(1, 4)>>, kw |-> <<[k |-> "phi", v |-> e]>>, modes |-> <<I(1)>>, br |-> "none"]>>]
+\* the same expression inside a loop body, multiplied by the loop variable: one transform per iteration, each with its own formula
+LoopScript(x) == [name |-> "rr", version |-> "1.0", target |-> NoM, type |-> NoM, incs |-> <<>>,
+                  body |-> Pre \o <<[t |-> "stmt", op |-> "MeasureX", hasargs |-> FALSE, args |-> <<>>, kw |-> <<>>, modes |-> <<I(0)>>, br |-> "none"],
+                                   [t |-> "for", ty |-> "int", x |-> "m", hdr |-> [t |-> "vals", br |-> "sq", xs |-> <<I(2), I(3), I(5)>>],
+                                    body |-> <<[t |-> "stmt", op |-> "Zgate", hasargs |-> TRUE, args |-> <<Bin("*", Wrap(x), Var("m")), Fl(1, 4)>>,
+                                                kw |-> <<[k |-> "phi", v |-> Bin("+", Wrap(x), Var("m"))]>>, modes |-> <<I(1)>>, br |-> "none"]>>]>>]
 VARIABLES e, pos, done
-Init == e \in Exprs /\ pos \in {"pos", "kw"} /\ done = FALSE
+Init == e \in Exprs /\ pos \in {"pos", "kw", "loop"} /\ done = FALSE /\ (pos = "loop" => (ERegs(e) # {} /\ e \in E1ok))
 Next == ~done /\ done' = TRUE /\ UNCHANGED <<e, pos>>
 NoFS8(f) == NoFile
-Out == Load(Script(e, pos))
-Arg == IF pos = "pos" THEN Out.prog.ops[2].args[1] ELSE Out.prog.ops[2].kw[1].v
+Out == IF pos = "loop" THEN Load(LoopScript(e)) ELSE Load(Script(e, pos))
+Arg == IF pos = "kw" THEN Out.prog.ops[2].kw[1].v ELSE Out.prog.ops[2].args[1]
 TransformIffRegisters == done => (Out.k = "ok" /\ (Arg.k = "rrt" <=> ERegs(e) # {}) /\ (Arg.k = "rrt" => RegsOf(Arg.term) = ERegs(e)))
 PlainStaysPlain == done => (ERegs(e) = {} => IsNum(Arg))
-OtherArgPlain == done => (IF pos = "pos" THEN IsNum(Out.prog.ops[2].args[2]) ELSE IsNum(Out.prog.ops[2].args[1]))
-Emit == done => PrintT(<<"CASE", ToJson([s |-> Script(e, pos), out |-> Out, pos |-> pos, nregs |-> Cardinality(ERegs(e))])>>)
+OtherArgPlain == done => (IF pos = "kw" THEN IsNum(Out.prog.ops[2].args[1]) ELSE IsNum(Out.prog.ops[2].args[2]))
+LoopOnePerIteration == (done /\ pos = "loop") => (Len(Out.prog.ops) = 4 /\ \A i \in 2..4 : Out.prog.ops[i].args[1].k = "rrt" /\ Out.prog.ops[i].kw[1].v.k = "rrt")
+Emit == done => PrintT(<<"CASE", ToJson([s |-> IF pos = "loop" THEN LoopScript(e) ELSE Script(e, pos), out |-> Out, pos |-> pos, nregs |-> Cardinality(ERegs(e))])>>)
 =============================================================================
